@@ -3,6 +3,7 @@ thresholds and byte order, constant tables vs their defining formulas, boolean /
 rotation functions, hex front ends, SipHash tail tables."""
 import decimal
 import math
+import re
 
 from engine import ir, dtable, match, skel, cfg as cfgm
 from engine.ir import kids, strip_casts, const_int, ref_of
@@ -88,7 +89,115 @@ class ClosedSkel(skel.Skel):
             raise dtable.Undecidable("%s: %s at line %s is not understood" % (self.fn.loc, e["k"], e.get("l")))
         return None
 
+    # ---- lambdas: a closure is a value (call operator + the by-copy captures at the point of the lambda expression); a call
+    # of it executes the call operator's body on the same model.  `this` and by-reference captures name the enclosing
+    # function's objects, which are the model's own cells, so the body works on them directly.
+    def closure(self, e):
+        where = "%s: lambda at line %s" % (self.fn.loc, e.get("l"))
+        callee = self.tu.by_did.get(e.get("fn")) if self.tu is not None else None
+        if callee is None or callee.body is None or callee.kind != "lambda":
+            raise dtable.Undecidable("%s: its call operator cannot be followed" % where)
+        snap = []
+        for c in e.get("captures") or []:
+            if c.get("name") == "this" and "id" not in c:
+                if not c.get("byref"):
+                    raise dtable.Undecidable("%s captures a copy of *this" % where)
+                continue
+            d = c.get("id")
+            if d is None:
+                raise dtable.Undecidable("%s: a capture is not understood" % where)
+            if c.get("byref"):
+                if d not in self.env and d not in self.alias:
+                    raise dtable.Undecidable("%s: captures `%s`, which has no value in the evaluation" % (where, c.get("name")))
+                continue
+            decl = [v for v in self.fn.nodes() if v["k"] == "VarDecl" and v.get("did") == d] + [p_ for p_ in self.fn.params if p_["did"] == d]
+            ty = (decl[0].get("ty") or "").rstrip() if len(decl) == 1 else "]"
+            if ty.endswith("]") or ty.endswith("&") or d in self.alias or d not in self.env:
+                raise dtable.Undecidable("%s: the by-copy capture of `%s` is not understood" % (where, c.get("name")))
+            snap.append((d, self.env[d]))
+        return ("closure", callee.did, tuple(snap))
+
+    def call_closure(self, e, callee):
+        args = [a for a in kids(e) if a is not None and a["k"] != "DefaultArg"]
+        where = "%s: call of a lambda at line %s" % (self.fn.loc, e.get("l"))
+        clo = self.ev(args[0]) if args else None
+        if not (isinstance(clo, tuple) and len(clo) == 3 and clo[0] == "closure" and clo[1] == callee.did):
+            raise dtable.Undecidable("%s: the closure object is not understood" % where)
+        actual = args[1:]
+        if len(actual) != len(callee.params) or self.depth >= 5 or callee.body is None:
+            raise dtable.Undecidable("%s: arguments / nesting not understood" % where)
+        if clo[2] and not e["callee"].get("const"):
+            raise dtable.Undecidable("%s: a mutable lambda with by-copy captures" % where)
+        saved_alias = dict(self.alias)
+        for p_, a in zip(callee.params, actual):
+            ty = (p_.get("ty") or "").rstrip()
+            if ty.endswith("&"):
+                key = self.lvalue(a)
+                if key is not None:
+                    self.alias[p_["did"]] = key
+                elif ty.endswith("&&") or "const" in ty.split("<")[0]:
+                    self.env[p_["did"]] = self.ev(a)
+                else:
+                    self.alias = saved_alias
+                    raise dtable.Undecidable("%s: reference argument not understood" % where)
+            else:
+                self.env[p_["did"]] = self.ev(a)
+        missing = object()
+        outer = [(d, self.env.get(d, missing)) for d, _ in clo[2]]
+        for d, v in clo[2]:
+            self.env[d] = v
+        self.depth += 1
+        saved_fn = self.fn
+        self.fn = callee
+        try:
+            self.run(kids(callee.body))
+            ret = None
+        except skel.Return as r_:
+            ret = r_.v
+        finally:
+            self.fn = saved_fn
+            self.depth -= 1
+            self.alias = saved_alias
+            for d, v in outer:
+                if v is missing:
+                    self.env.pop(d, None)
+                else:
+                    self.env[d] = v
+        return ret
+
+    def range_for(self, s):
+        """for (T x : a) / for (T& x : a) over an array of known extent: one round per element, in index order"""
+        where = "%s: range-for at line %s" % (self.fn.loc, s.get("l"))
+        ch = kids(s)
+        if len(ch) != 3 or isinstance(s.get("init"), dict) or ch[0] is None or ch[1] is None or ch[1]["k"] != "VarDecl" or ch[1].get("did") is None:
+            raise dtable.Undecidable("%s: form not understood" % where)
+        rng, var, body = ch
+        m_ = re.match(r"^(?:const )?([^\[\]&*]+?) ?\[(\d+)\]$", (strip_casts(rng).get("ty") or "").strip())
+        vty = (var.get("ty") or "").strip()
+        byref = vty.endswith("&")
+        bare = vty.rstrip("&").strip()
+        bare = bare[6:] if bare.startswith("const ") else bare
+        if not m_ or bare != m_.group(1).strip():
+            raise dtable.Undecidable("%s: the range is not an array of known extent whose elements have the type of the loop variable" % where)
+        base = self.ev(rng)
+        if not isinstance(base, int) or isinstance(base, bool):
+            raise dtable.Undecidable("%s: the array is not an object of the evaluation" % where)
+        for i in range(int(m_.group(2))):
+            if byref:
+                self.alias[var["did"]] = ("mem", base + i)
+            else:
+                self.env[var["did"]] = self.load(("mem", base + i))
+            try:
+                self.stmt(body)
+            except skel._Break:
+                break
+            except skel._Continue:
+                pass
+        self.alias.pop(var["did"], None)
+
     def stmt(self, s):
+        if s is not None and s["k"] == "CXXForRangeStmt":
+            return self.range_for(s)
         if s is not None and s["k"] == "DeclStmt":
             rest = []
             for v in kids(s):
@@ -132,8 +241,14 @@ def memory_event(model, e, sk, bytewise=True):
                 sk.env[("mem", base + i)] = sk.ev(x)
             cache[id(e)] = base
         return cache[id(e)]
+    if e["k"] == "LambdaExpr" and isinstance(sk, ClosedSkel):
+        return sk.closure(e)
     if "callee" not in e:
         return NotImplemented
+    if e["k"] == "CXXOperatorCallExpr" and e.get("op") == "()" and isinstance(sk, ClosedSkel) and sk.tu is not None:
+        lam = sk.tu.by_did.get(e["callee"].get("did"))
+        if lam is not None and lam.kind == "lambda":
+            return sk.call_closure(e, lam)
     nm = e["callee"]["name"]
     args = [a for a in kids(e) if a is not None and a["k"] != "DefaultArg"]
     if nm in ("min", "max") and len(args) == 2 and sk.tu is not None:
@@ -461,29 +576,147 @@ class CallCounter:
                 a, b = visit(kids(s)[1]), visit(els)
                 return a and b
             if s["k"] == "ReturnStmt":
-                e = strip_tmp(kids(s)[0]) if kids(s) else None
-                if e is not None and e["k"] == "ConditionalOperator" and self.known(kids(e)[0]) is not None:
-                    e = strip_tmp(kids(e)[1] if self.known(kids(e)[0]) else kids(e)[2])
-                if e is not None and "callee" in e:
-                    c = e["callee"]
-                    if c.get("name") in HEX_CASE and not c.get("record"):
-                        out.add(HEX_CASE[c["name"]])
-                        return True
-                    callee = self.tu.by_did.get(c.get("did"))
-                    if callee is not None and callee.body is not None and depth < 4 and not (c.get("name") or "").startswith("hexdump"):
-                        saved = self.enter(e, callee)
-                        try:
-                            out.update(self.returned_cases(callee, depth + 1))
-                        finally:
-                            self.consts = saved
-                        return True
-                out.add("?")
+                out.update(self.value_cases(kids(s)[0] if kids(s) else None, fn, depth))
                 return True
             for c in kids(s):
                 visit(c)
             return False
         visit(fn.body)
         return out
+
+    def value_cases(self, e, fn, depth=0):
+        """the kinds of hex string an expression of fn yields: 'uc' / 'lc' (a hexdump call of that case, directly, through a
+        followed helper, or held in a local string that is only case-converted as a whole before it is read), '?' anything else"""
+        e = strip_tmp(e)
+        if e is not None and e["k"] == "ConditionalOperator" and self.known(kids(e)[0]) is not None:
+            e = strip_tmp(kids(e)[1] if self.known(kids(e)[0]) else kids(e)[2])
+        if e is not None and "callee" in e:
+            c = e["callee"]
+            if c.get("name") in HEX_CASE and not c.get("record"):
+                return {HEX_CASE[c["name"]]}
+            callee = self.tu.by_did.get(c.get("did"))
+            if callee is not None and callee.body is not None and depth < 4 and not (c.get("name") or "").startswith("hexdump"):
+                saved = self.enter(e, callee)
+                try:
+                    return self.returned_cases(callee, depth + 1) or {"?"}
+                finally:
+                    self.consts = saved
+        if e is not None and e["k"] == "DeclRefExpr" and e["ref"].get("kind") == "local":
+            return {self.local_case(e, fn, depth)}
+        return {"?"}
+
+    HEXDIGITS = {"uc": "0123456789ABCDEF", "lc": "0123456789abcdef"}
+
+    def local_case(self, ref, fn, depth):
+        """case of the hex string a local std::string holds where `ref` (the operand of a top-level return) reads it.  Closed
+        world: the local is declared at the top level of the body with a value of known case, and every other mention of
+        it is a whole-string case conversion at the top level between declaration and return (std::transform over
+        [begin, end) onto itself, or a range-for assigning every character), whose character function is evaluated on the
+        16 digits.  Anything else: '?'."""
+        d = ref["ref"]["id"]
+        tops = kids(fn.body) if fn.body is not None and fn.body["k"] == "CompoundStmt" else []
+        decls = [v for v in fn.nodes() if v["k"] == "VarDecl" and v.get("did") == d]
+        if len(decls) != 1 or ir._bare(decls[0].get("ty")) != "std::basic_string<char>" or (decls[0].get("ty") or "").rstrip().endswith("&"):
+            return "?"
+        for y in fn.nodes():
+            if y["k"] == "LambdaExpr" and any(c.get("id") == d for c in y.get("captures") or []):
+                return "?"
+        mentions = {id(y) for y in fn.nodes() if y["k"] == "DeclRefExpr" and y["ref"]["id"] == d}
+        cur, state = None, "before"
+        for t in tops:
+            inside = {id(y) for y in ir.walk(t)} & mentions
+            if state == "before":
+                if t is not None and t["k"] == "DeclStmt" and any(v is decls[0] for v in kids(t)):
+                    if inside or len(kids(decls[0])) != 1:
+                        return "?"
+                    cs = self.value_cases(kids(decls[0])[0], fn, depth)
+                    if len(cs) != 1 or cs == {"?"}:
+                        return "?"
+                    cur, state = next(iter(cs)), "live"
+                elif inside:
+                    return "?"
+                continue
+            if not inside:
+                continue
+            if t["k"] == "ReturnStmt" and kids(t) and strip_tmp(kids(t)[0]) is ref and inside == {id(ref)}:
+                mentions -= inside
+                return cur if not mentions else "?"
+            conv = self.case_conversion(t, d, fn)
+            if conv is None or conv[1] != inside:
+                return "?"
+            mentions -= inside
+            got = [conv[0](ord(ch)) for ch in self.HEXDIGITS[cur]]
+            cur = next((k_ for k_, dg in self.HEXDIGITS.items() if got == [ord(ch) for ch in dg]), None)
+            if cur is None:
+                return "?"
+        return "?"
+
+    def case_conversion(self, t, d, fn):
+        """(character function, ids of the mentions of the string it accounts for) if the statement t replaces every
+        character c of the local string d by f(c); None otherwise"""
+        def is_d(x):
+            x = strip_tmp(x)
+            return x is not None and x["k"] == "DeclRefExpr" and x["ref"]["id"] == d
+
+        def edge(x, names):
+            x = strip_tmp(x)
+            if x is not None and "callee" in x and x.get("member_call") and x["callee"].get("name") in names and len(kids(x)) == 1 and is_d(kids(x)[0]) \
+                    and (x["callee"].get("record") or "").startswith("std::basic_string"):
+                return strip_tmp(kids(x)[0])
+            return None
+
+        def toupper_like(c):
+            return c.get("name") in ("toupper", "tolower") and c.get("qname") in ("toupper", "tolower", "std::toupper", "std::tolower") \
+                and self.tu.by_did.get(c.get("did")) is None
+
+        def event(e, sk):
+            if "callee" in e and e["k"] == "CallExpr" and toupper_like(e["callee"]):
+                a = [x for x in kids(e) if x is not None and x["k"] != "DefaultArg"]
+                v = sk.ev(a[0]) if len(a) == 1 else None
+                if isinstance(v, int) and not isinstance(v, bool) and 0 <= v < 128:
+                    return ord(chr(v).upper() if e["callee"]["name"] == "toupper" else chr(v).lower())
+                raise dtable.Undecidable("%s: %s() of a value that is not understood" % (fn.loc, e["callee"]["name"]))
+            return NotImplemented
+
+        def run_on(owner, bind, stmts, result):
+            def f(ch):
+                sk = ClosedSkel(owner, {bind: ch}, None, event, max_iter=16)
+                try:
+                    sk.run(stmts)
+                    v = sk.env.get(result) if result is not None else None
+                except skel.Return as r_:
+                    v = r_.v if result is None else None
+                except (dtable.Undecidable, skel.Diverges, TypeError, KeyError, IndexError):
+                    return None
+                return v if isinstance(v, int) and not isinstance(v, bool) else None
+            return f
+        e = strip_tmp(t)
+        if e is not None and "callee" in e and e["k"] == "CallExpr" and e["callee"].get("name") == "transform" and e["callee"].get("qname") == "std::transform":
+            a = [x for x in kids(e) if x is not None and x["k"] != "DefaultArg"]
+            if len(a) != 4:
+                return None
+            m0, m1, m2 = edge(a[0], ("begin",)), edge(a[1], ("end",)), edge(a[2], ("begin",))
+            if m0 is None or m1 is None or m2 is None:
+                return None
+            f = strip_passed(a[3])
+            acc = {id(m0), id(m1), id(m2)}
+            if f is not None and f["k"] == "LambdaExpr" and not f.get("captures"):
+                lam = self.tu.by_did.get(f.get("fn"))
+                if lam is not None and lam.body is not None and len(lam.params) == 1 and not (lam.params[0].get("ty") or "").rstrip().endswith("&"):
+                    return run_on(lam, lam.params[0]["did"], kids(lam.body), None), acc
+                return None
+            if f is not None and f["k"] == "DeclRefExpr" and toupper_like(dict(f["ref"], did=f["ref"].get("id"))) and f["ref"].get("kind") == "fn" \
+                    and (f.get("ty") or "").startswith("int (int)"):
+                up = f["ref"]["name"] == "toupper"
+                return (lambda ch: ord(chr(ch).upper() if up else chr(ch).lower()) if 0 <= ch < 128 else None), acc
+            return None
+        if e is not None and e["k"] == "CXXForRangeStmt" and len(kids(e)) == 3 and not isinstance(e.get("init"), dict):
+            rng, var, body = kids(e)
+            if is_d(rng) and var is not None and var["k"] == "VarDecl" and (var.get("ty") or "").strip() == "char &" and body is not None:
+                if any(y["k"] in ("BreakStmt", "ContinueStmt", "ReturnStmt", "GotoStmt") for y in ir.walk(body)):
+                    return None
+                return run_on(fn, var["did"], [body], var["did"]), {id(strip_tmp(rng))}
+        return None
 
     def fn_counts(self, fn):
         if fn.did in self.stack or len(self.stack) > 6:
@@ -629,11 +862,17 @@ def check_frontends(ck, tu, name, info):
         other = CallCounter(tu, lambda c: is_hex(c) and c.get("name") not in HEX_CASE, leaf=is_hex).fn_counts(fn)
         wname = "hexdump_lc" if want == "lc" else "hexdump"
         # the wrong-case print is what the caller gets: every return statement hands out such a call directly
-        wrong_returned = fin_c.returned_cases(fn) == {"uc" if want == "lc" else "lc"}
+        returned = fin_c.returned_cases(fn)
+        wrong_returned = returned == {"uc" if want == "lc" else "lc"}
         if fin_c.foreign:
             raise dtable.Undecidable("%s: %s finalizes / prints an object other than *this" % (fn.loc, meth))
         if fin == {1} and good == {1} and wrong == {0} and other == {0}:
             ck.ok("HEX-FRONTENDS", "%s::%s" % (name, meth), "finalize then " + wname, nontrivial=False)
+        elif fin == {1} and other == {0} and returned == {want}:
+            # exactly one finalize on every path, and every return statement hands out a hexdump that has the wanted case where
+            # it is returned (printed in the other case and converted as a whole on the way)
+            ck.ok("HEX-FRONTENDS", "%s::%s" % (name, meth), "finalize once; every return hands out a hexdump that is in %s case where it is returned"
+                  % ("lower" if want == "lc" else "upper"), nontrivial=False)
         elif good == {0} and other == {0} and min(wrong) >= 1 and wrong_returned:
             ck.violation("HEX-FRONTENDS", fn.qname, "%s:%s" % (name, meth), "%s must finalize once and print with %s (every path returns the %s-case hexdump instead)"
                          % (meth, wname, "upper" if want == "lc" else "lower"), fn.loc)
